@@ -30,7 +30,9 @@ EXPLANATION = (
     " (R10) membership compares like equality (C12.R18) [D20, fixed]; (R11) the row filter's NULL semantics the pruning rules assume (C12.R3). R5 accepts pc.min_max(col)['min'|'max'] with the matching field."
     ' R4 reads codec tables iterated row by row (unrolled), canonicalises payloads through one-parameter helpers and isoformat defaults, and has a flow form for per-branch tag locals.'
     " R4: a decoded payload VALUE is never truth-tested ('' / 0 / 0.0 / False are bounds); R5: fields and columns iterated together come from one (identically filtered) sequence."
-    ' (R12) no per-object state lives in a class-level mutable (a dict / list in a class body filled through self is shared by every instance); (R13) a scratch collection filled inside a manifest record loop is created inside that loop.')
+    ' (R12) no per-object state lives in a class-level mutable (a dict / list in a class body filled through self is shared by every instance); (R13) a scratch collection filled inside a manifest record loop is created inside that loop.'
+    " R4 also rejects an encoder that re-binds its argument before building the payload (a clamped / rounded copy; a zone conversion of an aware datetime is the same instant) and accepts 'inf' / '-inf' strings under a math.isinf test (float() parses them back exactly)."
+)
 NOT_DECIDED = ("pc.min/max and Arrow comparison semantics (e.g. int64 beyond 2^53 against a float literal); end-to-end "
                "pruned-vs-unpruned equality at run time")
 ASSUMPTIONS = ["values of one column are totally ordered except float NaN; pc.min/pc.max ignore NULL and NaN rows"]
